@@ -319,6 +319,226 @@ theorem codec_inverse (L : Lib J) (laws : LibLaws L) (t : Triple J) (wf : WFTrip
       · rw [hj, rstripSp_snoc]; exact rstripSp_last hbrev (solid_ne_sp hb)
       · simp [parts, cut_append_sp hasp, cut_no_sp hssp]
 
+/-- the encoded frame followed by further bytes is de-framed and decoded to the triple again -/
+theorem codec_inverse_framed (L : Lib J) (laws : LibLaws L) (t : Triple J) (wf : WFTriple L t)
+    (hnl : EOL ∉ joined L t) (more : Bytes) :
+    ∃ body, getMsg (encodeFrame L t ++ more) = some (body, more) ∧ decodeMsg L (body ++ [EOL]) = some t := by
+  have hb : EOL ∉ rstripSp (joined L t) := by
+    intro h
+    apply hnl
+    unfold rstripSp at h
+    have := List.mem_reverse.1 h
+    exact List.mem_reverse.1 ((List.dropWhile_sublist _).subset this)
+  refine ⟨rstripSp (joined L t), ?_, codec_inverse L laws t wf⟩
+  have hframe : IsFraming (encodeFrame L t ++ more) [rstripSp (joined L t)] more → True := fun _ => trivial
+  cases h : getMsg (encodeFrame L t ++ more) with
+  | none =>
+    exfalso
+    exact (getMsg_none.1 h) (by simp [encodeFrame])
+  | some p =>
+    obtain ⟨m, r⟩ := p
+    obtain ⟨heq, hm⟩ := getMsg_some h
+    -- both decompositions split at the first EOL
+    have f1 : IsFraming (encodeFrame L t ++ more ++ [EOL]) [m] (r ++ [EOL]) → True := fun _ => trivial
+    have : m = rstripSp (joined L t) ∧ r = more := by
+      have e : rstripSp (joined L t) ++ EOL :: more = m ++ EOL :: r := by
+        rw [← heq]; simp [encodeFrame]
+      clear h heq f1 hframe
+      generalize rstripSp (joined L t) = x at hb e
+      induction x generalizing m with
+      | nil =>
+        cases m with
+        | nil => simpa using e.symm
+        | cons y ys => simp at e; exact absurd (by simp [e.1]) hm
+      | cons c cs ih =>
+        cases m with
+        | nil => simp at e; exact absurd (by simp [e.1]) hb
+        | cons y ys =>
+          simp only [List.cons_append, List.cons.injEq] at e
+          obtain ⟨rfl, e⟩ := e
+          have := ih ys (fun hh => hm (List.mem_cons_of_mem _ hh)) (fun hh => hb (List.mem_cons_of_mem _ hh)) e
+          exact ⟨by rw [this.1], this.2⟩
+    rw [this.1, this.2]
+
 end codec
+
+/-! ## Whole lines -/
+
+section whole
+variable {J : Type}
+
+/-- **lines_whole_partial** — sends are atomic appends (they happen under the connection's send lock), so
+the byte stream a peer receives, cut at its newlines, is exactly the sequence of frames sent — replies,
+help text lines and events of any number of senders in the order of their sends — provided no
+frame contains a newline of its own.  Missing for the full statement (`lines_whole_statement`): that
+the frames of `serve` contain no newline needs `EOL ∉` for the fields of every reply (true for fields
+cut out of a request line, assumed for what the dispatcher hands over); and the lock itself is not modelled. -/
+theorem lines_whole_partial (L : Lib J) (outs : List (Out J))
+    (h : ∀ o ∈ outs, EOL ∉ rstripSp (joined L o.msg)) :
+    IsFraming (wire L outs).flatten (outs.map (fun o => rstripSp (joined L o.msg))) [] := by
+  refine ⟨?_, ?_, by simp⟩
+  · simp [wire, encodeFrame, List.map_map, Function.comp_def]
+  · intro l hl
+    obtain ⟨o, ho, rfl⟩ := List.mem_map.1 hl
+    exact h o ho
+
+def lines_whole_statement : Prop :=
+  ∀ (J σ : Type) (T : Tables) (L : Lib J) (d : Disp σ J) (st : σ) (chunks : List Bytes),
+    LibLaws L → DispFits T L d →
+    IsFraming (wire L (serve T L d [] st chunks).outs).flatten
+      ((serve T L d [] st chunks).outs.map (fun o => rstripSp (joined L o.msg))) []
+
+end whole
+
+/-! ## Strict JSON (recorded finding `C07:strict_json:nan-token`) -/
+
+section strict
+variable {J σ : Type}
+
+/-- every data part sent is accepted by a strict JSON parser -/
+def EmittedStrict (L : Lib J) (strict : Bytes → Bool) (outs : List (Out J)) : Prop :=
+  ∀ o ∈ outs, ∀ j, o.msg.data = some j → strict (L.dumps j) = true
+
+/-- the data the dispatcher hands to the wire layer satisfies `fin` (contains no NaN, no ±Infinity) -/
+def DispFinite (fin : J → Bool) (d : Disp σ J) : Prop :=
+  ∀ st t, (∀ m ∈ (d st t).1.async, ∀ j, m.data = some j → fin j = true) ∧
+    ∀ r, (d st t).1.res = .ok r → ∀ j, r.data = some j → fin j = true
+
+/-- the full statement: strict JSON whatever the dispatcher hands over — **false**, see `emitted_strict_fails` -/
+def emitted_strict_statement : Prop :=
+  ∀ (J σ : Type) (T : Tables) (L : Lib J) (d : Disp σ J) (st : σ) (chunks : List Bytes)
+    (strict : Bytes → Bool) (fin : J → Bool),
+    (∀ j, fin j = true → strict (L.dumps j) = true) → (∀ c, fin (L.errReport c) = true) →
+    (∀ i, fin (L.helpText i) = true) →
+    EmittedStrict L strict (serve T L d [] st chunks).outs
+
+theorem handleLine_strict (T : Tables) (L : Lib J) (d : Disp σ J) (strict : Bytes → Bool) (fin : J → Bool)
+    (hdumps : ∀ j, fin j = true → strict (L.dumps j) = true) (herr : ∀ c, fin (L.errReport c) = true)
+    (hhelp : ∀ i, fin (L.helpText i) = true) (hd : DispFinite fin d) (st : σ) (line : Bytes) :
+    EmittedStrict L strict (handleLine T L d st line).1 := by
+  intro o ho j hj
+  apply hdumps
+  unfold handleLine at ho
+  cases hn : nextMessage T L line with
+  | bad raw =>
+    simp only [hn, List.mem_singleton] at ho
+    subst ho
+    simp only [decodeErrorReply, errorReply, Option.some.injEq] at hj
+    rw [← hj]; exact herr _
+  | msg t =>
+    simp only [hn] at ho
+    by_cases hh : t.action = T.helpRequest
+    · simp only [hh, ↓reduceIte, List.mem_append, List.mem_singleton] at ho
+      rcases ho with ho | rfl
+      · simp only [helpLines, List.mem_map] at ho
+        obtain ⟨i, _, rfl⟩ := ho
+        simp only [Option.some.injEq] at hj
+        rw [← hj]; exact hhelp _
+      · simp at hj
+    · simp only [hh, ↓reduceIte, List.mem_append, List.mem_map, List.mem_singleton] at ho
+      obtain ⟨hasync, hok⟩ := hd st t
+      rcases ho with ⟨m, hm, rfl⟩ | rfl
+      · exact hasync m hm j hj
+      · cases hr : (d st t).1.res with
+        | ok r => simp only [hr, resultReply] at hj; exact hok r hr j hj
+        | secop c => simp only [hr, resultReply, errorReply, Option.some.injEq] at hj; rw [← hj]; exact herr _
+        | exc => simp only [hr, resultReply, errorReply, Option.some.injEq] at hj; rw [← hj]; exact herr _
+        | garbage => simp only [hr, resultReply, errorReply, Option.some.injEq] at hj; rw [← hj]; exact herr _
+
+/-- **emitted_strict_partial** — proved part: if the dispatcher hands over only finite data, every
+data part sent is strict JSON (for all streams and segmentations).  Missing: the wire layer does
+nothing about a NaN/±Infinity it is handed (`json.dumps` with `allow_nan`), see `emitted_strict_fails`. -/
+theorem emitted_strict_partial (T : Tables) (L : Lib J) (d : Disp σ J) (strict : Bytes → Bool) (fin : J → Bool)
+    (hdumps : ∀ j, fin j = true → strict (L.dumps j) = true) (herr : ∀ c, fin (L.errReport c) = true)
+    (hhelp : ∀ i, fin (L.helpText i) = true) (hd : DispFinite fin d) (st : σ) (chunks : List Bytes) :
+    EmittedStrict L strict (serve T L d [] st chunks).outs := by
+  rw [(serve_eq_serveLines T L d chunks [] st).1]
+  generalize (feedAll [] chunks).lines = ls
+  induction ls generalizing st with
+  | nil => intro o ho; simp [serveLines] at ho
+  | cons l ls ih =>
+    intro o ho
+    simp only [serveLines, List.mem_append] at ho
+    rcases ho with ho | ho
+    · exact handleLine_strict T L d strict fin hdumps herr hhelp hd st l o ho
+    · exact ih _ o ho
+
+end strict
+
+/-! ## Non-vacuity: a lawful JSON layer and a dispatcher that does its part -/
+
+/-- a two-valued JSON layer: `true`/`false` written `t`/`f` -/
+def L0 : Lib Bool where
+  utf8ok := fun _ => true
+  loads := fun d => if d = [116] then some true else if d = [102] then some false else none
+  dumps := fun j => if j then [116] else [102]
+  errReport := fun _ => false
+  helpText := fun _ => false
+
+theorem L0_laws : LibLaws L0 where
+  loads_dumps := by intro j; cases j <;> decide
+  dumps_ends := by intro j; cases j <;> decide
+  dumps_noEol := by intro j; cases j <;> decide
+  dumps_utf8 := fun _ => rfl
+  utf8_join := fun _ _ => rfl
+  utf8_nil := rfl
+
+/-- a dispatcher that refuses everything with a ProtocolError -/
+def d0 : Disp Unit Bool := fun st _ => (⟨[], .secop [80, 114, 111, 116, 111, 99, 111, 108, 69, 114, 114, 111, 114]⟩, st)
+
+theorem d0_fits : DispFits tables L0 d0 := by
+  intro st t
+  exact ⟨by simp [d0], by simp only [d0]; decide⟩
+
+/-- `WFTriple` is inhabited, with and without specifier and data -/
+example : WFTriple L0 ⟨[112, 111, 110, 103], some [120], some true⟩ :=
+  ⟨by unfold Token; decide, fun s hs => by cases hs; unfold Token; decide⟩
+
+example : decodeMsg L0 (encodeFrame L0 ⟨[112, 111, 110, 103], some [120], some true⟩)
+    = some ⟨[112, 111, 110, 103], some [120], some true⟩ :=
+  codec_inverse L0 L0_laws _ ⟨by unfold Token; decide, fun s hs => by cases hs; unfold Token; decide⟩
+
+/-- a concrete run: `"ping x\n\n*ID"`, `"N?\n r {"`, `"\nrest"` — four lines, four replies with the
+expected actions (`error_ping`, `helping`, `error_*IDN?`, `error_r` — the last one for an undecodable
+line with leading blank), the tail `rest` unanswered -/
+example :
+    ((replies (serve tables L0 d0 [] () [[112, 105, 110, 103, 32, 120, 10, 10, 42, 73, 68], [78, 63, 10, 32, 114, 32, 123],
+        [10, 114, 101, 115, 116]]).outs).map (fun o => o.msg.action),
+      (serve tables L0 d0 [] () [[112, 105, 110, 103, 32, 120, 10, 10, 42, 73, 68], [78, 63, 10, 32, 114, 32, 123],
+        [10, 114, 101, 115, 116]]).buf)
+    = ([[101, 114, 114, 111, 114, 95, 112, 105, 110, 103], [104, 101, 108, 112, 105, 110, 103],
+        [101, 114, 114, 111, 114, 95, 42, 73, 68, 78, 63], [101, 114, 114, 111, 114, 95, 114]], [114, 101, 115, 116]) := by
+  decide
+
+/-- a dispatcher that answers every request with the value `true` (read: NaN) as data -/
+def dNaN : Disp Unit Bool := fun st t => (⟨[], .ok ⟨[114], t.spec, some true⟩⟩, st)
+
+/-- **emitted_strict_fails** — the counterexample to `emitted_strict_statement`: JSON layer `L0` with
+`true` standing for NaN (`fin true = false`, its text `t` not strict), request `x\n` -/
+theorem emitted_strict_fails : ¬ emitted_strict_statement := by
+  intro h
+  have := h Bool Unit tables L0 dNaN () [[120, 10]] (fun b => b != [116]) (fun j => !j)
+    (by intro j hj; cases j <;> simp_all [L0]) (fun _ => rfl) (fun _ => rfl)
+  revert this
+  simp only [EmittedStrict]
+  intro hall
+  have := hall ⟨.reply, [120], ⟨[114], none, some true⟩⟩ (by decide) true rfl
+  revert this
+  decide
+
+/-- the monitor accepts what the repaired handler sends and rejects what the pinned one sent:
+request ` read x {` answered `error_read x ["InternalError"…` / `error_ read ["InternalError"…` -/
+example : judge tables [32, 114, 101, 97, 100, 32, 120, 32, 123, 10]
+    [[101, 114, 114, 111, 114, 95, 114, 101, 97, 100, 32, 120, 32, 91, 34, 73, 110, 116, 101, 114, 110, 97, 108, 69, 114, 114, 111, 114, 34, 93, 10]]
+    = .ok := by decide
+
+example : judge tables [32, 114, 101, 97, 100, 32, 120, 32, 123, 10]
+    [[101, 114, 114, 111, 114, 95, 32, 114, 101, 97, 100, 32, 91, 34, 73, 110, 116, 101, 114, 110, 97, 108, 69, 114, 114, 111, 114, 34, 93, 10]]
+    = .misfit 0 := by decide
+
+/-- a dead handler (no reply to the second line) is rejected -/
+example : judge tables [120, 10, 121, 10]
+    [[101, 114, 114, 111, 114, 95, 120, 32, 32, 91, 34, 80, 114, 111, 116, 111, 99, 111, 108, 69, 114, 114, 111, 114, 34, 93, 10]]
+    = .count 2 1 := by decide
 
 end Frappy.Props.C07
